@@ -226,6 +226,29 @@ def run_case(case):
                                'msg': '%s raised by another thread is not caught by `except` '
                                       'with its own exact specialisation' % raised_text})
         foreign_exc.__traceback__ = None
+    # ---- ... nor on how many other specialisations were made in the meantime (a failure that
+    # is still alive keeps its class: asking for the same specialisation again gives that class)
+    if case['index'] % 40 == 0:
+        crowd = [Concurrent[type('Crowd%d' % number, (Exception,), {})] for number in range(700)]
+        again = build_type(spec)
+        stats['type_identity_checks'] += 1
+        stats['specialisations_in_between'] = stats.get('specialisations_in_between', 0) + len(crowd)
+        if again is not type(exc):
+            violations.append({'mechanism': 'c17:specialisation-not-identical',
+                               'msg': 'after 700 other specialisations were made, %s is a new '
+                                      'class, not the class of the failure that is still alive'
+                                      % describe(spec)})
+        try:
+            raise exc
+        except again:
+            pass
+        except BaseException:  # noqa: B902
+            violations.append({'mechanism': 'c17:except',
+                               'msg': '%s is no longer caught by `except` with its own exact '
+                                      'specialisation after 700 other specialisations were made'
+                                      % raised_text})
+        exc.__traceback__ = None
+        del crowd
     # ---- the rule follows the class hierarchy as it is *now*: a class registered as a
     # virtual subclass of an abstract exception class after a first look is matched from then on
     class Abstract(Exception, metaclass=abc.ABCMeta):
